@@ -495,7 +495,7 @@ func popCases(c *reg.Ctx, n int) {
 }
 
 func run(c *reg.Ctx) {
-	popCases(c, 1500)
+	popCases(c, 800)
 	for i := 0; i < c.N; i++ {
 		shape := shapes[i%len(shapes)]
 		steps := 40 + c.Rand.Intn(90)
